@@ -18,10 +18,12 @@ MODULES = [
     'contracts.c02_retries',
     'contracts.c47_platforms',
     'contracts.c47_replay',
+    'contracts.c24_restricted',
 ]
 
 EXTRA_CHECKS = {'C26': ['contracts.c26_census:check'],
                 'C09': ['contracts.c09_census:check'],
+                'C24': ['contracts.c24_restricted:whitelist_check'],
                 'C02': ['contracts.c02_retries:census'],
                 'C32': ['contracts.c32_expiry:census'],
                 'C11': ['contracts.c11_bounded:check'],
